@@ -49,10 +49,19 @@ Theorem C01_refuted_extras_overwrite :
 Proof. exact c01_extras_overwrite_witness. Qed.
 Print Assumptions C01_refuted_extras_overwrite.
 
-Theorem C01_refuted_pins_override :
-  match w_c01_pins_override_run 100 with COk g _ => pin_of g "c" | _ => None end = Some (Some "3.0") /\
-  match w_c01_pins_override_constraints with
-  | Some (cfile :: _) => map (fun r => (rname r, spec_contains (rspec r) (mkV 0 [3%N; 0%N] None None None []) true)) (dreqs cfile)
-  | _ => [] end = [("c", false)].
-Proof. exact c01_pins_override_witness. Qed.
-Print Assumptions C01_refuted_pins_override.
+(* Fully pinned constraint files (after /repo 8ac3bda): the pin table merges every pin of every
+   file - for each requirement of each constraint file there is a table entry at least as strong. *)
+Theorem C01_pins_of_all_constraint_files_merged :
+  forall cons ap pins ap' out,
+  collect_pins cons ap pins = Rok (ap', out) -> ap' = true ->
+  (forall k p, slookup k pins = Some p -> exists m, slookup k out = Some m /\ stronger m p) /\
+  (forall c r, In c cons -> In r (dreqs c) ->
+     exists m, slookup (norm (safe_name (rname r))) out = Some m /\ stronger m r).
+Proof. exact collect_pins_stronger. Qed.
+Print Assumptions C01_pins_of_all_constraint_files_merged.
+
+(* the former counter-example (pins.txt c==1.0, pins2.txt c==3.0) now fails honestly on c *)
+Theorem C01_contradictory_pins_fail :
+  match w_c01_pins_override_run 100 with CNoCand _ nm _ => nm | COk _ _ => "<ok>" | CFatal _ => "<fatal>" end = "c".
+Proof. exact c01_pins_merged_witness. Qed.
+Print Assumptions C01_contradictory_pins_fail.
